@@ -10,6 +10,7 @@ import (
 	"hash/fnv"
 	"io"
 	"math/rand/v2"
+	"os"
 	"runtime"
 	"runtime/debug"
 	"sort"
@@ -327,6 +328,9 @@ func Execute(t *testing.T, spec RunSpec, known map[string]bool, keepLog bool) (r
 				}
 			}
 			w := simsync.NewWorld(cfg)
+			if keepLog && os.Getenv("VERIF_TRACE") != "" {
+				w.TraceOut = os.Stderr
+			}
 			simsync.W = w
 			defer func() { simsync.W = nil }()
 			c := &Ctx{T: t, W: w, Spec: &spec, res: &res, Known: known, logOn: keepLog}
